@@ -555,3 +555,97 @@ PROPS["C11"] = {
                     "cosmossdk.io/math LegacyNewDecFromStr is a parameter (table supplied by the harness)",
                     "heights < 2^63 (int64)"],
 }
+
+
+# ------------------------------------------------------------------------------------------------ C15 tokenfactory
+def parse_tf_obs(ob):
+    a = ob.split()
+    st = {"S": {}, "B": {}, "A": {}}
+    for it in plist(sec(a, "S")):
+        k, v = it.rsplit("=", 1)
+        st["S"][k] = int(v)
+    for it in plist(sec(a, "B")):
+        k, v = it.rsplit("=", 1)
+        st["B"][tuple(k.split("|"))] = int(v)
+    for it in plist(sec(a, "A")):
+        k, v = it.rsplit("=", 1)
+        st["A"][k] = v
+    return a[0], st
+
+
+def tf_shape(d):
+    p = d.split("/")
+    return len(p) == 3 and p[0] == "tf" and p[1] != "" and p[2] != ""
+
+
+def oracle_c15(run, ops, impl):
+    out = []
+    st = None
+    for i, (op, ob) in enumerate(zip(ops, impl)):
+        a = op.split()
+        if ob.startswith("panic"):
+            out.append(V("C15:panic", {"line": i + 1, "op": op}))
+            continue
+        res, new = parse_tf_obs(ob)
+        if a[1] == "reset":
+            st = new
+            continue
+        un = lambda s: "" if s == "_" else s
+        kind = a[1]
+        sender = un(a[2])
+        if res != "ok":
+            if new != st:
+                out.append(V("C15:rejected-message-changed-state", {"line": i + 1, "op": op, "result": res}))
+            st = new
+            continue
+        # supply
+        for d in set(st["S"]) | set(new["S"]):
+            delta = new["S"].get(d, 0) - st["S"].get(d, 0)
+            if delta == 0:
+                continue
+            admin = st["A"].get(d)
+            if kind == "mint" and a[3] == d and admin == sender and delta == int(a[4]) and delta > 0 and tf_shape(d):
+                continue
+            if kind == "burn" and a[3] == d and admin == sender and delta == -int(a[4]) and delta < 0:
+                continue
+            if kind == "burnNative" and a[3] == d and delta == -int(a[4]):
+                if d in st["A"] and admin != sender:
+                    out.append(V("C15:burnNative-by-non-admin-holder-changes-tf-supply", {"line": i + 1, "op": op, "denom": d, "admin": admin, "delta": delta}))
+                continue
+            out.append(V("C15:supply-changed-without-admin-mint-burn", {"line": i + 1, "op": op, "denom": d, "delta": delta, "admin": admin}))
+        # control
+        for d in set(st["A"]) | set(new["A"]):
+            if st["A"].get(d) == new["A"].get(d):
+                continue
+            if kind == "create" and d == "tf/%s/%s" % (sender, un(a[3])) and d not in st["A"] and new["A"][d] == sender:
+                continue
+            if kind == "changeAdmin" and a[3] == d and st["A"].get(d) == sender and new["A"].get(d) == un(a[4]):
+                continue
+            out.append(V("C15:admin-changed-illegitimately", {"line": i + 1, "op": op, "denom": d, "before": st["A"].get(d), "after": new["A"].get(d)}))
+        # debits
+        for k in set(st["B"]) | set(new["B"]):
+            delta = new["B"].get(k, 0) - st["B"].get(k, 0)
+            if delta >= 0:
+                continue
+            acct, d = k
+            if kind == "burn" and a[3] == d and st["A"].get(d) == sender and tf_shape(d):
+                continue
+            if kind == "burnNative" and a[3] == d and sender.lower() == acct.lower():
+                continue
+            out.append(V("C15:account-debited-illegitimately", {"line": i + 1, "op": op, "account": acct, "denom": d, "delta": delta}))
+        st = new
+    return out
+
+
+PROPS["C15"] = {
+    "modules": ["NibiruProofs.C15"],
+    "runs": [{"model": "tf", "n_quick": 150, "n_thorough": 2500, "nontrivial": r"^ok S="}],
+    "oracle": oracle_c15,
+    "rule": "each case is one generated history on the real tokenfactory msg server, each message run as the chain does (ValidateBasic, "
+            "handler on a branched context discarded on error): CreateDenom / ChangeAdmin / Mint / Burn / BurnNative / SetDenomMetadata "
+            "from admins, former admins, holders, strangers, module accounts, upper-case bech32 and malformed addresses, on created "
+            "denoms, other creators' denoms, unibi, ibc/…, erc20/… and look-alike strings; observations: result class, bank supply of "
+            "every tracked denom, every non-zero balance, admin of every denom; non-trivial = at least one message accepted",
+    "assumptions": ["bank keeper Mint/Burn/Send move exactly the stated coins (parameter, observed)",
+                    "messages are executed atomically (branched store discarded on error), as baseapp does"],
+}
